@@ -582,3 +582,45 @@ def hash_to_scalar_calls(P, fn, depth=2):
             seen.add(key)
             out.append((c.a[1][0], c.a[1][1]))
     return out
+
+
+def check_pop_chain(ctx, P, rule="E5.chain"):
+    """The high-level proof-of-possession entry points compute the draft's PopProve / PopVerify: looking through every
+    crate function on the way, exactly one core_sign (core_verify) is reached, under the POP tag, with the key's own
+    compressed bytes as the message and the key's own scalar (resp. the caller's key and the proof) as operands -
+    whatever route (pop_prove, a helper, the generic sign wrapper) the call takes."""
+    from . import flow as F
+    from .spec import built_variants
+
+    only = lambda g: g.key not in PRODUCERS and g.key not in CONSUMERS and not g.key.endswith("::hash_to_point") and not g.key.endswith("::hash_to_scalar") and g.key != "BlsSignatureCore::public_key"
+    for fk, sink, kind in (("SecretKey<C>::proof_of_possession", "BlsSignatureCore::core_sign", "prove"), ("ProofOfPossession<C>::verify", "BlsSignatureCore::core_verify", "verify")):
+        f = ctx.need_fn(rule, fk)
+        if f is None:
+            continue
+        ev = evaluate(f)
+        R = inline(P, ev.ret, 5, only=only)
+        calls = []
+        seen = set()
+        for c_ in subterms(R):
+            if c_.op == "call" and B.cname(c_) == sink and strip_sites(c_) not in seen:
+                seen.add(strip_sites(c_))
+                calls.append(c_)
+        ok = len(calls) == 1
+        detail = "%d call(s) to %s reached" % (len(calls), sink.split("::")[-1])
+        if ok:
+            a = calls[0].a[1]
+            tag = tag_of(a[-1])
+            msg = B.nf(ev, a[-2])
+            cls = classify_segs(msg)
+            if kind == "prove":
+                r0 = F.projection_root(strip_sites(a[0]))
+                opnd = r0 is not None and r0[0].a[1] == "self"
+                ok = tag == "BlsSignaturePop::POP_DST" and cls == ("pk", "own") and opnd
+            else:
+                roots = [F.projection_root(strip_sites(x)) for x in a[:2]]
+                opnd = all(roots) and [x[0].a[1] for x in roots] == ["pk", "self"]
+                ok = tag == "BlsSignaturePop::POP_DST" and cls == ("pk", "param") and opnd
+            detail = "tag=%s message=%s operands-from-the-caller=%s" % (tag, cls, opnd)
+        ctx.ob(rule, fk, ok, "%s = %s under POP_DST over the key's own compressed bytes: %s" % (fk, "PopProve(self)" if kind == "prove" else "PopVerify(pk, self)", detail), where=where(f))
+        if kind == "prove":
+            ctx.ob(rule, fk + "/result", bool(built_variants(inline(P, ev.ret, 2, only=only), "ProofOfPossession")), "result wraps the proof", where=where(f))
